@@ -313,8 +313,91 @@ func runAnyutil(cfg *Cfg) {
 			}
 		}
 	}
+	retainedPass(out, targets)
 	extensionPass(out)
 	out.Sample("anyunpack x" + hex.EncodeToString([]byte(urls[0])) + " m:… nf ok")
+}
+
+// retainedPass: a packed Any must keep its value whatever is packed afterwards. Messages whose encoding has
+// EXACTLY a size at which buffers are typically dimensioned (powers of two and their neighbours) are packed one after
+// the other through New and MarshalFrom; every Any is kept and checked again at the end (a pack that hands out a
+// pooled or reused buffer is overwritten by a later one).
+func retainedPass(out *Out, targets []*Target) {
+	type kept struct {
+		any  *anypb.Any
+		want []byte
+		what string
+	}
+	var all []kept
+	sizes := []int{63, 64, 65, 127, 128, 129, 255, 256, 257, 511, 512, 513, 1023, 1024, 1025, 2047, 2048, 2049, 4095, 4096, 4097, 8191, 8192, 8193}
+	done := 0
+	for _, t := range targets {
+		// a singular string or bytes field of the root message to stretch
+		var fd protoreflect.FieldDescriptor
+		for i := 0; i < t.Desc.Fields().Len(); i++ {
+			f := t.Desc.Fields().Get(i)
+			if f.Cardinality() != protoreflect.Repeated && f.ContainingOneof() == nil && (f.Kind() == protoreflect.StringKind || f.Kind() == protoreflect.BytesKind) {
+				fd = f
+				break
+			}
+		}
+		if fd == nil {
+			continue
+		}
+		if done++; done > 4 {
+			break
+		}
+		for _, sz := range sizes {
+			msg := t.B.ToMessage(0, vval.Empty(t.S, 0))
+			set := func(n int) {
+				if n < 0 {
+					n = 0
+				}
+				b := bytes.Repeat([]byte{byte('a' + sz%26)}, n)
+				if fd.Kind() == protoreflect.StringKind {
+					msg.ProtoReflect().Set(fd, protoreflect.ValueOfString(string(b)))
+				} else {
+					msg.ProtoReflect().Set(fd, protoreflect.ValueOfBytes(b))
+				}
+			}
+			n := sz
+			for it := 0; it < 6; it++ { // adjust the payload until the whole encoding has the wanted size
+				set(n)
+				d := proto.Size(msg) - sz
+				if d == 0 {
+					break
+				}
+				n -= d
+			}
+			if proto.Size(msg) != sz {
+				continue
+			}
+			want, _ := proto.MarshalOptions{Deterministic: true}.Marshal(msg)
+			var a *anypb.Any
+			var err error
+			if len(all)%2 == 0 {
+				a, err = anyutil.New(msg)
+			} else {
+				a = &anypb.Any{}
+				err = anyutil.MarshalFrom(a, msg, proto.MarshalOptions{Deterministic: true})
+			}
+			out.Case(fmt.Sprintf("retained:%s:%d", t.Full, sz), true)
+			out.Count("retained_any_cases")
+			if err != nil {
+				continue
+			}
+			all = append(all, kept{a, want, fmt.Sprintf("%s with an encoding of exactly %d bytes (pack number %d)", t.Full, sz, len(all))})
+		}
+	}
+	for i, k := range all {
+		if !bytes.Equal(k.any.Value, k.want) {
+			out.Violate("C16", "packed-value-changed-later", fmt.Sprintf("the value of an Any packed earlier (%s) changed while %d later messages were packed", k.what, len(all)-1-i), "anyretained "+k.what)
+			continue
+		}
+		if m, err := anyutil.Unpack(k.any, nil, nil); err != nil || proto.Size(m) != len(k.want) {
+			out.Violate("C16", "unpack-roundtrip-error", fmt.Sprintf("an Any packed earlier (%s) no longer unpacks to its message: %v", k.what, err), "anyretained "+k.what)
+		}
+	}
 }
 
 // extensionPass: messages of another generator (descriptor.proto options) carrying EXTENSION fields, packed and
